@@ -30,9 +30,13 @@ pub enum Path {
     Proxy,
     ClientRequest,
     ClientNotify,
+    /// small notifies queued right before an oversized notify (one handler call)
+    BurstNotify,
+    /// small notifies queued right before an oversized response
+    BurstResponse,
 }
 
-const PATHS: [Path; 7] = [
+const PATHS: [Path; 9] = [
     Path::InlineResponse,
     Path::OffReaderResponse,
     Path::HandlerNotify,
@@ -40,6 +44,8 @@ const PATHS: [Path; 7] = [
     Path::Proxy,
     Path::ClientRequest,
     Path::ClientNotify,
+    Path::BurstNotify,
+    Path::BurstResponse,
 ];
 
 #[derive(Debug, Clone, Serialize, Deserialize, Hash, PartialEq, Eq)]
@@ -114,6 +120,24 @@ fn server_router(peers_for_notify: bool) -> Router {
             };
             Ok(json!({"queued": sent}))
         })
+        .with_json_ctx("/burst", |ctx: &CallContext, v: Value| {
+            // queue `pre` small notifies, then (optionally) a notify of `n` body bytes, then
+            // answer with a JSON string of `r` characters: everything is in the outbound
+            // queue before the writer gets to run
+            let pre = v.get("pre").and_then(Value::as_u64).unwrap_or(0);
+            let n = v.get("n").and_then(Value::as_u64);
+            let r = v.get("r").and_then(Value::as_u64).unwrap_or(0) as usize;
+            let f = v.get("f").and_then(Value::as_u64).unwrap_or(0) as u8;
+            if let Some(p) = ctx.peer() {
+                for i in 0..pre {
+                    let _ = p.send_notify("/tick", NotifyBody::Raw(vec![i as u8; 6], BodyFormat::RawBinary));
+                }
+                if let Some(n) = n {
+                    let _ = p.send_notify("/pushed", NotifyBody::Raw(vec![f; n as usize], BodyFormat::RawBinary));
+                }
+            }
+            Ok(Value::String("x".repeat(r)))
+        })
         .with_json("/ping", |_v: Value| Ok(json!("pong")))
 }
 
@@ -161,9 +185,10 @@ pub fn check(c: &Case) -> CheckResult {
     let errors: Errors = Arc::new(Mutex::new(Vec::new()));
     let near = limit.is_some_and(|l| (size as i64 - l as i64).abs() <= 2);
 
-    let res: Result<(), Fail> = block_on(async {
+    let single_thread = matches!(c.path, Path::BurstNotify | Path::BurstResponse);
+    let fut = async {
         match c.path {
-            Path::InlineResponse | Path::OffReaderResponse | Path::HandlerNotify | Path::Broadcast => {
+            Path::InlineResponse | Path::OffReaderResponse | Path::HandlerNotify | Path::Broadcast | Path::BurstNotify | Path::BurstResponse => {
                 let peers = PeerRegistry::new();
                 let errs = errors.clone();
                 let shared = WebSocketServer::new(server_router(true))
@@ -251,6 +276,60 @@ pub fn check(c: &Case) -> CheckResult {
                             );
                             let resp = recv_frame(&mut io, "the response after the notify").await?;
                             ensure!(resp.header.id == 8 && resp.header.ec == 0, "response-missing", "response after notify: id {:#x} ec {}", resp.header.id, resp.header.ec);
+                        }
+                    }
+                    Path::BurstNotify | Path::BurstResponse => {
+                        let pre = 1 + (c.fill % 3) as usize;
+                        let req_body = if c.path == Path::BurstNotify {
+                            json!({"pre": pre, "n": size - 48 - "/pushed".len(), "r": 1, "f": c.fill})
+                        } else {
+                            // response frame: 48 + "/burst" + JSON string of r chars (+2 quotes)
+                            json!({"pre": pre, "r": size - 48 - "/burst".len() - 2, "f": c.fill})
+                        };
+                        io.send(&frame_with(8, 0, b"/burst", 1, serde_json::to_vec(&req_body).unwrap().as_slice(), 2, 0))
+                            .await
+                            .map_err(|e| Fail::new("harness-send", e.to_string()))?;
+                        // the small notifies arrive first, unchanged
+                        for i in 0..pre {
+                            let f = recv_frame(&mut io, "a small notify of the burst").await?;
+                            ensure!(
+                                f.path() == "/tick" && f.header.notify == 1 && f.body == vec![i as u8; 6],
+                                "burst-order",
+                                "burst frame {i}: expected a /tick notify, got {:?} ({} body bytes)",
+                                f.path(),
+                                f.body.len()
+                            );
+                        }
+                        let f = recv_frame(&mut io, "the frame after the small notifies").await?;
+                        if c.path == Path::BurstNotify {
+                            if over {
+                                ensure!(
+                                    f.header.notify == 0 && f.header.id == 8,
+                                    "oversized-notify-sent",
+                                    "an oversized notify ({size} bytes, limit {limit:?}) queued behind small ones reached the peer ({} body bytes)",
+                                    f.body.len()
+                                );
+                            } else {
+                                ensure!(f.path() == "/pushed" && f.body.len() == size - 48 - "/pushed".len(), "deliverable-notify-altered", "the in-limit notify of the burst was altered");
+                                let r = recv_frame(&mut io, "the burst response").await?;
+                                ensure!(r.header.id == 8 && r.header.ec == 0, "response-missing", "burst response id {:#x} ec {}", r.header.id, r.header.ec);
+                            }
+                        } else if over {
+                            ensure!(
+                                f.header.id == 8 && f.header.ec == ErrorCode::InternalError as u32,
+                                "oversized-response-not-replaced",
+                                "an oversized response ({size} bytes, limit {limit:?}) queued behind notifies was answered with ec {} ({} body bytes)",
+                                f.header.ec,
+                                f.body.len()
+                            );
+                        } else {
+                            ensure!(
+                                f.header.id == 8 && f.header.ec == 0 && 48 + f.query.len() + f.body.len() == size,
+                                "deliverable-response-altered",
+                                "the in-limit burst response was altered: ec {} total {}",
+                                f.header.ec,
+                                48 + f.query.len() + f.body.len()
+                            );
                         }
                     }
                     Path::Broadcast => {
@@ -417,7 +496,8 @@ pub fn check(c: &Case) -> CheckResult {
                 Ok(())
             }
         }
-    });
+    };
+    let res: Result<(), Fail> = if single_thread { crate::util::block_on(fut) } else { block_on(fut) };
     res?;
     Ok(CaseInfo::new(near)
         .class(format!("{:?}", c.path))
